@@ -159,7 +159,7 @@ stats_struct! {
     ops, events, begins, drops_strong, required_groups, required_group_members, max_group,
     nonrequired_destroyed, dead_handle_drops, sweeps, count_obs, weak_obs, links_obs,
     links_entries, upgrades_some, upgrades_none, wprobes, wprobes_dead, wprobes_lenient,
-    deref_obs, deref_after_destroy_obs, dead_clones_attempted, dead_drops, c14_obs, c14_after_unadopt_obs, mem_obs, script_actions, script_skips,
+    deref_obs, deref_after_destroy_obs, dead_clones_attempted, dead_drops, weak_escapes, weak_escapes_dead, c14_obs, c14_after_unadopt_obs, mem_obs, script_actions, script_skips,
     nested_depth_max, panics_scripted, consume_ok, consume_noop, elide_takes, table_orders,
 }
 
@@ -495,6 +495,23 @@ impl World {
         false
     }
 
+    /// does an object outside `set` record an adoption of a member of `set`? (with the orphan
+    /// premise satisfied such a record is necessarily stale)
+    pub fn recorded_by_outsider(&self, set: &[ObjId]) -> bool {
+        let inset = |x: ObjId| set.binary_search(&x).is_ok();
+        for (oi, o) in self.objs.iter().enumerate() {
+            if inset(oi as ObjId) || !self.holder_counts(o) {
+                continue;
+            }
+            for (&t, &c) in &o.rec {
+                if c > 0 && inset(t) {
+                    return true;
+                }
+            }
+        }
+        false
+    }
+
     pub fn wf_holds(&self) -> bool {
         for (oi, o) in self.objs.iter().enumerate() {
             if !matches!(o.state, St::Alive) {
@@ -597,8 +614,11 @@ impl World {
                         ctx.elide_pred = Some(pred);
                     }
                 }
-                if !req.is_empty() && self.stale_touching(&req) {
-                    // leaks are the permitted consequence of a stale record
+                if !req.is_empty() && self.recorded_by_outsider(&req) {
+                    // a stale record held by an object outside the set makes that object look
+                    // like an external owner: not collecting is the permitted consequence (leak).
+                    // Stale records *inside* the set do not block: every real handle is still
+                    // explained by a recorded adoption of a member, so the premise of C03 holds.
                     req.clear();
                 }
             }
@@ -830,7 +850,7 @@ impl World {
             return Some(p);
         }
         let ob = self.objs.get(o as usize)?;
-        if ob.state == St::Alive {
+        if ob.state == St::Alive && ob.addr != 0 {
             Some(ob.addr as *const Node)
         } else {
             None
